@@ -368,7 +368,10 @@ class Engine:
     def path_model_values(self):
         if self.mode != 'sym':
             return None
-        if not self._refresh_model():
+        try:
+            if not self._refresh_model():
+                return None
+        except Abort:
             return None
         return self._model_values(self.model)
 
@@ -541,6 +544,8 @@ class SymBool:
 
     def __array_ufunc__(self, ufunc, method, *inputs, **kw):
         name = ufunc.__name__
+        if method == 'reduce' and name in ('logical_and', 'logical_or', 'bitwise_and', 'bitwise_or') and len(inputs) == 1 and inputs[0] is self:
+            return self          # np.all / np.any of a single symbolic truth value
         if method == '__call__' and name in ('logical_and', 'bitwise_and'):
             return SymBool(z3.And([lift_bool(i) for i in inputs]))
         if method == '__call__' and name in ('logical_or', 'bitwise_or'):
@@ -550,7 +555,12 @@ class SymBool:
         return NotImplemented
 
 
+def _nb(b):
+    return bool(b) if isinstance(b, np.bool_) else b
+
+
 def sand(*bs):
+    bs = [_nb(b) for b in bs]
     bs = [b for b in bs if b is not True]
     if any(b is False for b in bs):
         return False
@@ -560,6 +570,7 @@ def sand(*bs):
 
 
 def sor(*bs):
+    bs = [_nb(b) for b in bs]
     bs = [b for b in bs if b is not False]
     if any(b is True for b in bs):
         return True
@@ -569,6 +580,7 @@ def sor(*bs):
 
 
 def snot(b):
+    b = _nb(b)
     if isinstance(b, SymBool):
         return ~b
     return not b
@@ -579,6 +591,7 @@ def simplies(a, b):
 
 
 def siff(a, b):
+    a, b = _nb(a), _nb(b)
     if isinstance(a, SymBool) or isinstance(b, SymBool):
         return SymBool(lift_bool(a) == lift_bool(b))
     return bool(a) == bool(b)
